@@ -67,6 +67,14 @@ class Frame:
     tc: tuple = ()
     raw_header: bytes = b""
 
+    @property
+    def pid(self):
+        """integer value of send_time when it is a finite whole number (publication id), else None"""
+        st = self.send_time
+        if st != st or st in (float("inf"), float("-inf")) or st != int(st):
+            return None
+        return int(st)
+
     def key(self):
         """identity fields the manager must not change (everything but msg_count)"""
         return (self.msg_type, self.send_time, self.recv_time, self.src_host, self.src_mod, self.dest_host,
